@@ -58,5 +58,18 @@ CHECKS["C19"] = {
             "with remove_unfinished (proved for the SequenceLearner model). Real runners with log=True replayed on fresh learners.",
     "design_ref": "DESIGN.md section 6 C19", "note": _RUNNER_NOTE, "technique": T,
 }
+CHECKS["C16"] = {
+    "level": "proof",
+    "text": "Kernel-checked theorems over ordered fields for the AverageLearner model (moments, variance identity, corrected sample "
+            "std, loss formula, fresh seeds incl. pigeonhole for the set-iteration branch) and the AverageLearner1D sampling model "
+            "(value = mean, counts, Student-t error, batch = single, under-sampled set tracked and served). Same definitions run at "
+            "Float in lock-step with the real learners; statistics re-derived exactly with Fractions. One recorded finding "
+            "(literal 'goes to an abscissa with fewer than min_samples' reading).",
+    "design_ref": "DESIGN.md section 6 C16",
+    "note": "Trusted: Lean kernel, standard axioms, hand models Avg.lean/Avg1D.lean tied by differential testing (1e-7 relative on "
+            "floats: python sum() is compensated, pow for **2/**0.5, pairwise np.mean), scipy.stats.t.ppf as recorded oracle, "
+            "sqrt law sqrt(x)^2=x. The Learner1D-inherited loss machinery of AverageLearner1D is not modelled.",
+    "technique": T,
+}
 _PENDING = "machinery for this property is not built yet in this commit (work in progress; see DESIGN.md section 9)"
 NOT_APPLICABLE = {f"C{i:02d}": _PENDING for i in range(1, 21) if f"C{i:02d}" not in CHECKS}
